@@ -63,6 +63,21 @@ def run(ctx):
     for e in (rnd.sample(consts, min(len(consts), 120)) if q else consts):
         for notation in ('expr', 'lambda'):
             cases.append({'op': 'build', 'notation': notation, 'order': [], 'e': e, 'style': rnd.choice(['sym', 'kw', 'mix']), 'seed': rnd.randrange(1 << 30)})
+    # long keyword chains (5-20 operands in one flat `and` / `or`: one n-ary node of Python's grammar)
+    for _ in range(200 if q else 4000):
+        order = rnd.sample(V4, 4)
+        k = rnd.randint(5, 20)
+        op = rnd.choice(['and', 'or'])
+        lit = lambda: rnd.choice([('var', rnd.choice(order)), ('not', ('var', rnd.choice(order))), ('const', 1 if op == 'and' else 0),
+                                  ((('or' if op == 'and' else 'and'), ('var', rnd.choice(order)), ('var', rnd.choice(order))))])
+        e = lit()
+        for _i in range(k - 1):
+            e = (op, e, lit())
+        seed = rnd.randrange(1 << 30)
+        for notation in ('expr', 'lambda'):
+            cases.append({'op': 'build', 'notation': notation, 'order': order, 'e': e, 'style': 'chain', 'seed': seed})
+        if rnd.random() < 0.3:
+            cases.append({'op': 'strrt', 'notation': 'expr', 'order': order, 'e': e, 'style': 'chain', 'seed': seed})
     cases.append({'op': 'build', 'notation': 'expr', 'order': [], 'e': ('var', 'a'), 'style': 'sym'})
     cases.append({'op': 'build', 'notation': 'lambda', 'order': [], 'e': ('or', ('var', 'a'), ('const', 1)), 'style': 'kw'})
     events = bddfam.run_bool_events(ctx, cases)
